@@ -194,6 +194,11 @@ type Engine struct {
 	// TraceCalls records an event for calls of the selected functions even
 	// though they are inlined.
 	TraceCalls func(fn *ssa.Function) bool
+	// PruneInfeasible drops branches whose condition cannot hold for
+	// non-negative atoms in exact arithmetic (e.g. 0 > 132 + 12·count).
+	// Wrap-around is deliberately not modelled: use only where well-formed
+	// input is analysed.
+	PruneInfeasible bool
 	// SeqCalls makes results of the named uninterpreted calls distinct per
 	// call (stateful callees such as a segment reader).
 	SeqCalls func(fn string) bool
@@ -694,6 +699,14 @@ func (e *Engine) exec(st *State, fr *frame, b, pred *ssa.BasicBlock, idx, depth 
 				st.learn(c)
 				st2.learn(c.Not())
 				var outs []Outcome
+				if e.PruneInfeasible {
+					if e.infeasible(c) {
+						return e.exec(st2, fr2, b.Succs[1], b, 0, depth)
+					}
+					if e.infeasible(c.Not()) {
+						return e.exec(st, fr, b.Succs[0], b, 0, depth)
+					}
+				}
 				if e.Prune != nil && e.Prune(c) {
 					outs = append(outs, Outcome{Kind: "cutoff", St: st, Why: "pruned", Pos: e.condPos(in)})
 				} else {
@@ -1526,4 +1539,69 @@ func (e *Engine) convert(x Val, from, to types.Type) (Val, string) {
 	}
 	// string / byte-slice conversions and everything else
 	return e.appOfType("convert:"+typeString(to), to, x), ""
+}
+
+// infeasible reports whether an ordering/equality comparison of two forms
+// cannot hold when every atom is a non-negative quantity (input bytes, bit
+// vectors of input bytes, lengths).
+func (e *Engine) infeasible(c *BoolVal) bool {
+	if c == nil || c.Const != nil {
+		return false
+	}
+	a, okA := c.A.(*Form)
+	b, okB := c.B.(*Form)
+	if !okA || !okB {
+		return false
+	}
+	d := a.Sub(b)
+	if dc, ok := d.D.constVal(); !ok || dc.Sign() <= 0 {
+		return false
+	}
+	allNonPos, allNonNeg := true, true
+	konst := new(big.Rat)
+	for _, t := range d.N.t {
+		if len(t.m.vars) == 0 {
+			konst = t.c
+			continue
+		}
+		for _, v := range t.m.vars {
+			at := e.A.get(v.a)
+			nonneg := false
+			if at != nil {
+				switch {
+				case at.Kind == "byte", at.Kind == "bv":
+					nonneg = true
+				case at.Fn == "len", at.Fn == "index", at.Fn == "idiv":
+					nonneg = true
+				}
+				if at.Type != nil {
+					if _, signed, isInt := intTypeInfo(at.Type, e.WordBits); isInt && !signed {
+						nonneg = true
+					}
+				}
+			}
+			if !nonneg {
+				return false
+			}
+		}
+		if t.c.Sign() > 0 {
+			allNonPos = false
+		}
+		if t.c.Sign() < 0 {
+			allNonNeg = false
+		}
+	}
+	switch c.Op {
+	case ">":
+		return allNonPos && konst.Sign() <= 0
+	case ">=":
+		return allNonPos && konst.Sign() < 0
+	case "<":
+		return allNonNeg && konst.Sign() >= 0
+	case "<=":
+		return allNonNeg && konst.Sign() > 0
+	case "==":
+		return (allNonNeg && konst.Sign() > 0) || (allNonPos && konst.Sign() < 0)
+	}
+	return false
 }
